@@ -4,6 +4,7 @@ go 1.16
 
 require (
 	github.com/jcmturner/gofork v1.7.6
+	github.com/jcmturner/goidentity/v6 v6.0.1
 	github.com/jcmturner/gokrb5/v8 v8.0.0
 )
 
